@@ -210,7 +210,7 @@ pub fn run(cfg: &Cfg, out: &mut Out) {
 
     // 3. random larger DAGs over several transactions
     let mut r = cfg.rng(40);
-    for _ in 0..cfg.n(12, 400) {
+    for _ in 0..cfg.n(12, 220) {
         let dags: Vec<Dag> = (0..20).map(|_| {
             let n = r.range(6, 40);
             let local = *r.pick(&[0usize, 2, 3, 4, 8]);
